@@ -51,7 +51,7 @@ func TestC19_BackoffObserved(t *testing.T) {
 	if sh, _ := ev.Shard(); sh > 1 {
 		t.Skip("two shards are enough")
 	}
-	ev.Rule(c19, "back-off observed: an auto-connect client against an address that refuses connections for ~2.5 s; dial timestamps from net.Dialer.Control: every gap >= 25 ms (sound lower bound), gaps non-decreasing within a 25% tolerance, none above 1 s + 1.5 s slack")
+	ev.Rule(c19, "back-off observed: an auto-connect client against an address that refuses connections for ~2.5 s (second shard: with three pairs of failing user calls Conn/Channel during the outage); dial timestamps from net.Dialer.Control: every gap >= 25 ms (sound lower bound), gaps non-decreasing within a 25% tolerance, none above 1 s + 1.5 s slack")
 	srv, err := netfx.StartServer(echoHandler(), netfx.NewLogger(), mpx.Default())
 	if err != nil {
 		t.Fatalf("infrastructure: %v", err)
@@ -73,6 +73,25 @@ func TestC19_BackoffObserved(t *testing.T) {
 	}}
 	cl := mpx.NewClientDialer(px.Addr(), mpx.ClientMode_AutoConnect, dialer, netfx.NewLogger(), mpx.Default())
 	defer cl.Close()
+	userCalls := 0
+	if sh, _ := ev.Shard(); sh == 1 {
+		// second shard: user calls during the outage (they fail with the dial error); the run of failures
+		// is the same run, so the spacing of the background dials must not restart
+		go func() {
+			for _, at := range []time.Duration{700, 500, 600} {
+				time.Sleep(at * time.Millisecond)
+				ctx := async.TimeoutContext(100 * time.Millisecond)
+				cl.Conn(ctx)
+				ctx.Free()
+				ctx = async.TimeoutContext(100 * time.Millisecond)
+				if ch, st := cl.Channel(ctx); st.OK() {
+					ch.Free()
+				}
+				ctx.Free()
+			}
+		}()
+		userCalls = 3
+	}
 	time.Sleep(2500 * time.Millisecond)
 	mu.Lock()
 	ds := append([]time.Time(nil), dials...)
@@ -84,7 +103,7 @@ func TestC19_BackoffObserved(t *testing.T) {
 	for i := 1; i < len(ds); i++ {
 		gaps = append(gaps, ds[i].Sub(ds[i-1]))
 	}
-	kase := map[string]any{"gaps_ms": fmt.Sprint(gaps)}
+	kase := map[string]any{"gaps_ms": fmt.Sprint(gaps), "user_calls_during_the_outage": userCalls}
 	for i, g := range gaps {
 		if g < 25*time.Millisecond {
 			ev.Violation(t, c19, "backoff-observed-too-short", kase, "consecutive failed dials %d and %d are only %v apart (< 25 ms)", i, i+1, g)
@@ -383,18 +402,25 @@ func TestC19_StateMachine(t *testing.T) {
 						}
 						open = nil
 						var cst status.Status
+						closeDone := make(chan struct{})
 						disarm := setTrap(mpx.VerifPointClientConnStarted, func() {
-							done := make(chan struct{})
-							go func() { cst = cl.Close(); close(done) }()
+							go func() { cst = cl.Close(); close(closeDone) }()
 							select {
-							case <-done:
-							case <-time.After(2 * time.Second):
+							case <-closeDone:
+							case <-time.After(2 * time.Second): // hold the connect routine at most this long
 							}
 						})
 						if ch, st := cl.Channel(ctx()); st.OK() {
 							ch.Free()
 						}
 						fired := disarm()
+						if fired {
+							select {
+							case <-closeDone:
+							case <-time.After(boundArrive()):
+								fail("close-hangs", "Close started while a connect routine was between dial and registration did not return within %v", boundArrive())
+							}
+						}
 						step("close inside the connect window (trap fired: %v) -> %v", fired, cst.Code)
 						if fired {
 							ev.Label(c19, "close-inside-connect-window", 1)
